@@ -98,12 +98,13 @@ func newCShared() *cShared {
 	return sh
 }
 
-const cNumOps = 20
+const cNumOps = 21
 
 var cOpNames = [cNumOps]string{"ed.Sign", "ed.Verify", "ed.VerifyExpanded(shared key)", "cache.Verifier.Verify(shared)", "ed.Batch(shared expanded keys)",
 	"x25519.X25519(Basepoint)", "sr.Sign+Verify(shared ctx,keypair)", "ecvrf.Prove+Verify", "h2c.XOF(shared shake)", "ed.Sign(hedged,selfverify)",
 	"ed.NewKeyFromSeed", "x25519.EdKeyConversions", "curve.MulBasepoint(shared user table)", "curve.ExpandedDoubleScalarMul(shared)", "ristretto.MulBasepoint+Expanded(shared)",
-	"merlin.Clone(shared origin)", "sr.Batch(shared keys)", "x25519.DH(shared keys)", "curve.MultiscalarMulVartime(package tables)", "h2c.XMD+ristretto"}
+	"merlin.Clone(shared origin)", "sr.Batch(shared keys)", "x25519.DH(shared keys)", "curve.MultiscalarMulVartime(package tables)", "h2c.XMD+ristretto",
+	"ed.Sign(hedged, entropy reader fails)"}
 
 func scal(i int) *scalar.Scalar {
 	d := sha512.Sum512([]byte{'s', byte(i), byte(i >> 8)})
@@ -245,6 +246,13 @@ func (sh *cShared) op(kind, i int) []byte {
 		p.MultiscalarMulVartime(ss, ps)
 		q.MultiscalarMul(ss, ps)
 		return append(edBytes(&p), edBytes(&q)...)
+	case 20:
+		// a fault in one call must not poison later calls: the reader fails after i%32 bytes
+		s, err := sh.priv[k].Sign(&failingReader{left: i % 32}, sh.msgs[k], &ed25519.Options{AddedRandomness: true, Context: "ctx"})
+		if err != nil {
+			return []byte("error")
+		}
+		return s
 	default:
 		p, err := h2c.Edwards25519_XMD_ELL2_NU(crypto.SHA512, []byte("verif-dst"), sh.msgs[k])
 		if err != nil {
@@ -294,6 +302,23 @@ func init() {
 		Stub: []string{"goroutine scheduler (rt)", "entropy: deterministic readers"},
 		Run:  runC18C,
 	})
+}
+
+type failingReader struct{ left int }
+
+func (f *failingReader) Read(p []byte) (int, error) {
+	if f.left <= 0 {
+		return 0, fmt.Errorf("injected entropy failure")
+	}
+	n := len(p)
+	if n > f.left {
+		n = f.left
+	}
+	for i := 0; i < n; i++ {
+		p[i] = byte(f.left)
+	}
+	f.left -= n
+	return n, nil
 }
 
 type cOp struct{ kind, i int }
